@@ -514,7 +514,8 @@ Theorem p2tr_sound ss x :
   ss = [] /\ witness <> [] /\
   let items := annex_stripped witness in
   (exists sg, items = [sg] /\ sg <> [] /\ so_xonly_ok so x = true /\
-              so_schnorr so x (fst (schnorr_split sg)) (snd (schnorr_split sg)) = Ok true)
+              so_schnorr so x (fst (schnorr_split sg)) (snd (schnorr_split sg)) = Ok true /\
+              schnorr_form_ok sg = true)
   \/
   ((2 <= length items)%nat /\ script_path_commit_check C sha256 x witness = Ok true /\
    exists ts fuel, witness_tap_script items = Ok ts /\
@@ -541,7 +542,8 @@ Proof.
     destruct (so_xonly_ok so x) eqn:Ex; cbn [negb] in H; [|discriminate H].
     destruct i0 as [|g0 g]; cbn [bind] in H.
     + destruct k; cbn [Verify.vloop final_test] in H; discriminate H.
-    + destruct (schnorr_split (g0 :: g)) as [sg' ht] eqn:Es. cbn [fst snd].
+    + destruct (schnorr_form_ok (g0 :: g)) eqn:Ef; cbn [negb] in H; [|discriminate H].
+      destruct (schnorr_split (g0 :: g)) as [sg' ht] eqn:Es. cbn [fst snd].
       destruct (so_schnorr so x sg' ht) as [b|] eqn:Eb; cbn [bind] in H; [|discriminate H].
       assert (b = true) as ->.
       { destruct k; cbn [Verify.vloop final_test] in H; rewrite enc_bool_truth in H;
@@ -645,11 +647,11 @@ Qed.
 
 (* taproot key path: one 64- or 65-byte signature the oracle accepts *)
 Theorem p2tr_keypath_complete x sg :
-  length x = 32%nat -> sg <> [] -> so_xonly_ok so x = true ->
+  length x = 32%nat -> sg <> [] -> so_xonly_ok so x = true -> schnorr_form_ok sg = true ->
   so_schnorr so x (fst (schnorr_split sg)) (snd (schnorr_split sg)) = Ok true ->
   verify_input C ripemd160 sha1 sha256 hash160 hash256 so c [sg] [] (p2tr_script x) = OTrue.
 Proof.
-  intros Hl Hs Hx Hv. unfold verify_input, p2tr_script. cbn [is_p2wpkh is_p2wsh is_p2tr orb].
+  intros Hl Hs Hx Hf Hv. unfold verify_input, p2tr_script. cbn [is_p2wpkh is_p2wsh is_p2tr orb].
   rewrite Hl. cbn [Nat.eqb orb app]. unfold evaluate_full.
   destruct (fuel_big [sg] [Op 81; Push x]) as [k ->].
   change (16 + k)%nat with (S (S (14 + k))).
@@ -660,7 +662,7 @@ Proof.
   unfold after_push, p2sh_rule. cbn [bind f_wit f_p2sh f_tap witness_rule negb]. rewrite Hl. cbn [Nat.eqb].
   unfold has_annex. cbn [length Nat.leb andb].
   unfold op_checksig_schnorr. rewrite Hx. cbn [negb].
-  destruct sg as [|g0 g]; [congruence|].
+  destruct sg as [|g0 g]; [congruence|]. rewrite Hf. cbn [negb].
   destruct (schnorr_split (g0 :: g)) as [sg' ht]. cbn [fst snd] in Hv. rewrite Hv. cbn [bind].
   reflexivity.
 Qed.
